@@ -115,6 +115,23 @@ def build(tier="quick", seed=0):
     add("C01.type[dynamic, any integer]", one_field("dynamic", lambda: SInt(x)), lambda w: {"call": "c01_value", "args": {"ftype": "dynamic", "src": repr(w.get("x", 0))}}, wit=lambda m_, p: {"x": model_value(m_, x)})
     add("C01.type[dynamic, any text]", one_field("dynamic", lambda: (it.assume(z3.InRe(sv, ENCODABLE)), SStr(sv))[1]), lambda w: {"call": "c01_value", "args": {"ftype": "dynamic", "src": repr(w.get("s", ""))}}, wit=lambda m_, p: {"s": model_value(m_, sv)})
 
+    # ---- L3: addresses of ANY value (assumed ipaddress contract of pyvc/models/ip.py): the address family is part of the identity
+    from pyvc.models.ip import SymIP
+
+    for fam, lo, hi, label in ((4, 0, 2 ** 32, "any IPv4 address"), (6, 2 ** 32, 2 ** 128, "any IPv6 address of value 2**32 or more"), (6, 0, 2 ** 32, "any IPv6 address of value below 2**32")):
+        for lst in (False, True):
+            tn = "net.ipaddress" + ("[]" if lst else "")
+
+            def vf(fam=fam, lo=lo, hi=hi, lst=lst):
+                it.assume(z3.And(x >= lo, x < hi, y >= lo, y < hi))
+                return [SymIP(fam, SInt(x)), SymIP(fam, SInt(y))] if lst else SymIP(fam, SInt(x))
+
+            def rp(w, fam=fam, lst=lst, tn=tn):
+                mk = lambda n: f"IP{fam}({int(n)})"
+                return {"call": "c01_value", "args": {"ftype": tn, "src": "[" + ", ".join([mk(w.get("x", 0)), mk(w.get("y", 0))]) + "]" if lst else mk(w.get("x", 0))}}
+
+            add(f"C01.type[{tn}, {label}]", one_field(tn, vf), rp, wit=lambda m_, p: {"x": model_value(m_, x), "y": model_value(m_, y)})
+
     # ---- L3: representative values of every type (finite case analysis), scalar and list form, and unset
     for t in V.SCALARS:
         srcs = list(dict.fromkeys(V.VALID.get(t, []) + EXTRA_VALUES.get(t, [])))
